@@ -123,12 +123,21 @@ def keyword_from_hash(kw_hash: int, name: str, ns: str | None = None) -> Keyword
     This function is an optimization primarily meant for the compiler. Keyword hashes
     are pre-computed during compilation so repeated lookups for the same keyword do not
     require recomputing the hash. In some brief testing, this yielded significant
-    performance improvements when creating the same keyword repeatedly."""
+    performance improvements when creating the same keyword repeatedly.
+
+    String hashes are salted per process, so a pre-computed hash is only a hint: hashes
+    embedded in cached namespace bytecode or in pickled keywords may have been computed
+    by another process. If no keyword of that name is interned under `kw_hash`, the
+    hash is recomputed so that the keyword interned by this process is returned."""
     global _INTERN
 
     with _LOCK:
         found = _INTERN.val_at(kw_hash)
-        if found:
+        if found is not None and found._name == name and found._ns == ns:
+            return found
+        kw_hash = hash_kw(name, ns)
+        found = _INTERN.val_at(kw_hash)
+        if found is not None and found._name == name and found._ns == ns:
             return found
         kw = Keyword(name, ns=ns)
         _INTERN = _INTERN.assoc(kw_hash, kw)
